@@ -114,11 +114,8 @@ HARNESSES = [
              "OutputBufferOxide::pad_to_bytes", "OutputBufferOxide::save", "OutputBufferOxide::load", "OutputBufferOxide::is_byte_aligned",
              "HuffmanOxide::start_static_block", "HuffmanOxide::optimize_table(static)", "compress_block", "compress_lz_codes"],
         strength="F in configuration, flush mode, bit alignment, pending bits, adler, block index; block body empty",
-        note="OutputBufferOxide::put_bits replaced by a small-buffer model (checked equal to the real put_bits by k_put_bits_model_equiv, and the real one proved in Verus V-def-bits); CallbackOxide::flush_output by a recording model (real one: K-flushout); <[u16]>::fill by its std contract model; in k_flush_block_finish_static compress_block by its empty-body contract model (real one: k_compress_block_static_empty)")
+        note="OutputBufferOxide::put_bits replaced by a small-buffer model (checked equal to the real put_bits by k_put_bits_model_equiv, and the real one proved in Verus V-def-bits); CallbackOxide::flush_output by a recording model (real one: K-flushout); <[u16]>::fill by its std contract model; in k_flush_block_finish_static compress_block by its empty-body contract model (ASSUMED: the harness for the real static-table build, k_compress_block_static_empty, did not finish in 50 min and is not registered)")
       for n in ("k_flush_block_markers", "k_flush_block_finish_static")],
-    H("k_compress_block_static_empty", "K-flushmark", ["C01", "C03", "C10", "C12"], cost=70, timeout=3000, tier="thorough",
-      fns=["compress_block", "HuffmanOxide::start_static_block", "HuffmanOxide::optimize_table(static)", "compress_lz_codes", "OutputBufferOxide::put_bits"],
-      strength="F: the fixed code is concrete; bit alignments 0 and 5; pending bits symbolic"),
     H("k_put_bits_model_equiv", "K-flushmark", ["C02", "C10", "C12"], fns=["OutputBufferOxide::put_bits"], cost=20),
     # ---- K-dispatch ----
     H("k_dispatch", "K-dispatch", ["C01", "C02", "C09", "C10", "C11", "C12", "C14", "C16"],
